@@ -116,6 +116,8 @@ class Report:
         out_lines = []
         for kid, h in known_hits.items():
             out_lines.append(f"KNOWN-FINDING: property={self.prop} {kid}: {h['k']['what']} ({h['n']} failing obligations attributed)")
+        # failures with a natively reproduced input first
+        violations.sort(key=lambda f: 0 if (f.get("replay") or {}).get("reproduced") else 1)
         seen_files = set()
         if violations:
             os.makedirs(rdir, exist_ok=True)
